@@ -113,6 +113,14 @@ def source_for(kind: str, name: str, route: str) -> Path:
     elif route == 'xz':
         p = src.with_suffix(src.suffix + '.xz')
         p.write_bytes(lzma.compress(src.read_bytes()))
+    elif route in ('gz2', 'xz2'):
+        # the same file written in several members / streams (gzip -c a b > c.gz, an
+        # appended-to file, bgzip): still one document to gzip.open / lzma.open
+        data = src.read_bytes()
+        cuts = [0, len(data) // 3, len(data) // 3 + 1, 2 * len(data) // 3, len(data)]
+        comp = gzip.compress if route == 'gz2' else lzma.compress
+        p = src.with_suffix(src.suffix + ('.m.gz' if route == 'gz2' else '.m.xz'))
+        p.write_bytes(b''.join(comp(data[a:b]) for a, b in zip(cuts, cuts[1:])))
     elif route == 'pkg':
         p = _package(src, name)
     elif route == 'coll':
